@@ -15,7 +15,9 @@ def run(tier, seed):
     for i, c in enumerate(cases):
         if i % 4 == 1:
             c["ckpt"], c["gvt"], c["fp"] = 1, 0, 10
-            c["env"] = {"VM_FORCE_TS": str((0, 2)[(i // 4) % 2])}
+            c["env"] = {"VM_FORCE_TS": str((3, 0, 3, 2)[(i // 4) % 4])}
+            if c["env"]["VM_FORCE_TS"] == "3":
+                c["env"]["VM_FORCE_RNG"] = "0"   # bursts of simultaneous events need the grid timestamps
     sim_common.run_sim_cases(chk, cases, timeout=300)
     chk.rule = ("one case = (generated model, threads 1..16 incl. more threads than LPs, checkpoint interval auto/1/2/3/5/7/64, GVT period 0..100 ms, "
                 "perturbation seed, failpoint level); the model family has timestamp ties, bounded zero-delay chains, payloads 0..300 bytes, fan-out, "
